@@ -181,7 +181,12 @@ def run_packet(case):
         probe = bench.Probe([dut.source.valid, dut.source.ready, dut.source.last, dut.source.data])
         cyc = bench.run(dut, [prod, cons, probe], main + 10 * n + 200, stop=lambda t: t > main and prod.done() and t > main + 60)
         leftover = case["hdr"]["length"] % B
-        v = _hold_masked(probe.trace, leftover if kind == "packetizer" else 0, B)
+        nvalid_last = leftover if kind == "packetizer" else 0
+        if kind == "depacketizer" and any(p_.get("short") for p_ in case["pk"]):
+            # a packet that ended in the residue word is flushed as one beat whose upper bytes belong to no packet (they follow the
+            # sink): only its payload bytes are held to the hold rule
+            nvalid_last = B - leftover
+        v = _hold_masked(probe.trace, nvalid_last, B)
         if v:
             return bad("hold", "%s dw=%d header length %d: cycle %d: %s" % (kind, case["dw"], case["hdr"]["length"], v[0], v[1]),
                        key="hold:packet-" + kind, cls=cls, cycles=cyc)
